@@ -85,6 +85,8 @@ class ActionSummary(object):
     # rolled back. It must use the pre-rename names, or it targets a name that no longer exists
     # and undo fails. Resolve them now, before root_name() rewrites table_id/col_id below.
     table_delta = self._tables[table_id]
+    # Row bookkeeping is kept under the current name (the defunct one for a removed table).
+    current_table_id = table_id
     orig_table_id = self._table_renames.original_name(table_id)
     orig_col_id = table_delta.column_renames.original_name(col_id)
     table_id = root_name(table_id)
@@ -105,12 +107,12 @@ class ActionSummary(object):
       return
 
     ## Maybe add one or two undo update actions for rows that existed before the change.
-    row_ids_before = self.filter_out_new_rows(table_id, full_row_ids)
+    row_ids_before = self.filter_out_new_rows(current_table_id, full_row_ids)
 
     if defunct:
       preserved_row_ids = []
     else:
-      preserved_row_ids = self.filter_out_gone_rows(table_id, row_ids_before)
+      preserved_row_ids = self.filter_out_gone_rows(current_table_id, row_ids_before)
 
     preserved_row_ids_set = set(preserved_row_ids)
     defunct_row_ids = [r for r in row_ids_before if r not in preserved_row_ids_set]
